@@ -7,7 +7,7 @@ open MxModel.Exec Driver
 
 structure CellDef where
   cached : Bool
-  allowNone : Bool
+  allowNone : Option Bool        -- the cells' own setting (`None` = look it up in the space)
   nparams : Nat
   body : Expr
 
@@ -15,6 +15,8 @@ structure World where
   cells : List (CellId × CellDef) := []
   refs : List (RefId × Val) := []
   maxdepth : Nat := 1000
+  anSpace : Option Bool := none  -- `space.allow_none`
+  anModel : Bool := false        -- `model.allow_none`
   st : St := {}
 
 def World.cell? (w : World) (c : CellId) : Option CellDef :=
@@ -25,7 +27,9 @@ def World.env (w : World) : Env where
     | some d => formulaOf (fun c => (w.cell? c).map (·.nparams)) d.body n.2
     | none => .raise (.user kName)
   cached := fun c => match w.cell? c with | some d => d.cached | none => true
-  allowNone := fun c => match w.cell? c with | some d => d.allowNone | none => false
+  allowNone := fun c => match w.cell? c with
+    | some d => resolveAllowNone d.allowNone w.anSpace w.anModel
+    | none => false
   refs := fun r => match w.refs.find? (·.1 == r) with | some e => e.2 | none => .none
   maxdepth := w.maxdepth
 
@@ -80,9 +84,11 @@ def step (w : World) (line : String) : World × String :=
   | "cell" :: id :: cached :: an :: np :: body =>
     match id.toNat?, np.toNat?, parseExpr body with
     | some id, some np, some (e, []) =>
-      let d : CellDef := { cached := cached = "1", allowNone := an = "1", nparams := np, body := e }
+      let d : CellDef := { cached := cached = "1", allowNone := (if an = "n" then none else some (an = "1")), nparams := np, body := e }
       ({ w with cells := (id, d) :: w.cells.filter (·.1 != id) }, "ok")
     | _, _, _ => (w, "bad-op")
+  | ["allownone", "space", v] => ({ w with anSpace := if v = "n" then none else some (v = "1") }, "ok")
+  | ["allownone", "model", v] => ({ w with anModel := v = "1" }, "ok")
   | ["ref", id, v] =>
     match id.toNat?, parseVal? v with
     | some id, some v => ({ w with refs := (id, v) :: w.refs.filter (·.1 != id) }, "ok")
